@@ -996,8 +996,8 @@ Plan gen_C10(std::uint64_t seed, int tier) {
         for (int ri : base) {
             Rec c = g.p.recs[ri];
             c.pol = pi;
-            if (c.kind == RK_CLASS && no_alias_policy(pool[pi]) && c.alias != 0)
-                continue; // one id per class under std_rtti
+            if (c.kind == RK_CLASS && no_alias_policy(pool[pi]))
+                c.alias = 0; // one id per class under std_rtti
             if (c.kind == RK_DEF)
                 c.meth = remap[c.meth];
             remap[ri] = g.add(c);
